@@ -27,6 +27,9 @@ pub struct Variant {
     /// in a guarded variant no known-finding trigger can occur: every violation is new
     pub guarded: bool,
     pub configure_gen: Option<fn(&mut Gen)>,
+    /// differential / secondary executions derived from the primary run (restart vs none, crash
+    /// enumeration, backend twin); returns additional violations and probe counts
+    pub post: Option<fn(&Variant, &RunOutput) -> (Vec<Violation>, Vec<(String, u64)>)>,
 }
 
 pub struct CheckSpec {
@@ -101,6 +104,20 @@ pub fn check_hash(id: &str) -> u64 {
 }
 
 pub fn exec_run(v: &Variant, cfg: RunCfg, replay: Option<Vec<Step>>) -> Result<RunOutput, String> {
+    let mut out = exec_primary(v, cfg, replay)?;
+    if let Some(post) = v.post {
+        if out.harness_error.is_none() {
+            let (viols, probes) = post(v, &out);
+            out.violations.extend(viols);
+            for (k, n) in probes {
+                *out.probes.entry(k).or_insert(0) += n;
+            }
+        }
+    }
+    Ok(out)
+}
+
+pub fn exec_primary(v: &Variant, cfg: RunCfg, replay: Option<Vec<Step>>) -> Result<RunOutput, String> {
     let oracle = v.oracle;
     let conf = v.configure_gen;
     let seed = cfg.seed;
